@@ -2,6 +2,7 @@
 // Every (font, text, dir) x ppm: structure identical to the font=NULL run and every position == design value * ppm/upem.
 #include "common/corpus.hpp"
 #include "common/segcheck.hpp"
+#include <map>
 using namespace vf;
 
 static Corpus g_c; static FaceCache *g_fc; static std::vector<std::string> g_syn; static std::vector<std::vector<std::string>> g_syntexts;
@@ -50,8 +51,54 @@ static void setup(Runner &r, const Tier &t) {
         ctl.cls(hash_str(dref)); if (ref) { bool att = dref.find(" p0") != std::string::npos || dref.find(" p1") != std::string::npos; if (att) ctl.counters[1] = ctl.counters[1] + 1; gr_seg_destroy(ref); }
     };
 }
+
+// ---- justified lines: gr_seg_justify(width in pixels, font) must give the design-unit result of gr_seg_justify(width in design units, NULL) scaled by ppm/upem
+// (whole segment, and each of the two lines after one line break at a cluster boundary); the justifier hands out whole design units, so one design unit per slot is tolerated
+struct JCase { int kind, font, item; }; static std::vector<JCase> g_jc; static Corpus g_jcorp; static std::vector<std::string> g_jsyn; static std::vector<std::vector<std::string>> g_jtx;
+static bool break_ok(const std::vector<const gr_slot*> &sl, size_t k) { if (k == 0 || k >= sl.size()) return false; std::map<const gr_slot*, size_t> ix; for (size_t q = 0; q < sl.size(); ++q) ix[sl[q]] = q;
+    for (size_t q = 0; q < sl.size(); ++q) { const gr_slot *r = sl[q]; int guard = 0; while (gr_slot_attached_to(r) && ++guard < 64) r = gr_slot_attached_to(r); if ((ix[r] < k) != (q < k)) return false; } return gr_slot_attached_to(sl[k]) == nullptr; }
+static void setup_just(Runner &r, const Tier &t) {
+    g_jc.clear(); g_jcorp.build({ "Padauk.ttf", "charis_r_gr.ttf", "Scheherazadegr.ttf", "general.ttf" }, t.thorough ? 200 : 25, { 0 });
+    for (size_t i = 0; i < g_jcorp.cases.size(); ++i) g_jc.push_back({ 0, g_jcorp.cases[i].font, g_jcorp.cases[i].item });
+    g_jsyn = { gen_dir() + "/s_full.ttf", gen_dir() + "/s_full_rtl.ttf" }; g_jtx.clear(); static const uint32_t alpha[5] = { 0x61, 0x62, 0x20, 0x301, 0x64 };
+    for (size_t f = 0; f < g_jsyn.size(); ++f) { std::vector<std::string> tx; int L = t.thorough ? 5 : 4; int n = 1; for (int k = 0; k < L; ++k) n *= 5; for (int v = 0; v < n; ++v) { std::vector<uint8_t> b; int x = v, sp = 0; for (int k = 0; k < L; ++k) { if (x % 5 == 2) ++sp; ref::enc8(alpha[x % 5], b); x /= 5; } if (sp) tx.push_back(std::string(b.begin(), b.end())); }
+        g_jtx.push_back(tx); for (int it = 0; it < int(tx.size()); ++it) g_jc.push_back({ 1, int(f), it }); }
+    r.ncases = g_jc.size(); r.case_alarm_s = 120; r.shard_init = [](int) { g_fc = new FaceCache; };
+    r.describe = [](uint64_t i) { const JCase &c = g_jc[i]; const std::string &font = c.kind ? g_jsyn[c.font] : g_jcorp.fonts[c.font]; const std::string &txt = c.kind ? g_jtx[c.font][c.item] : g_jcorp.items[c.font][c.item];
+        JObj o; o.kv("font", font).kv("text_utf8_hex", hex(txt.data(), txt.size())).kv("ppm", "9,12,96,4096").kv("width_factor", "1.3,0.9").kv("lines", "whole segment; both lines after a break before each of the first 4 cluster starts"); return o; };
+    r.body = [](uint64_t i, ShardCtl &ctl) {
+        const JCase &c = g_jc[i]; const std::string &fontname = c.kind ? g_jsyn[c.font] : g_jcorp.fonts[c.font]; const std::string &txt = c.kind ? g_jtx[c.font][c.item] : g_jcorp.items[c.font][c.item];
+        gr_face *face = g_fc->get(fontname, gr_face_preloadAll); if (!face) return; const gr_faceinfo *fi = gr_face_info(face, 0); float upem = fi ? fi->upem : 1000.f; if (upem <= 0) return;
+        size_t n = utf8_count(txt); int dir = (fontname.find("_rtl") != std::string::npos || fontname.find("Scheherazade") != std::string::npos) ? 1 : 0;     // paragraph direction = font direction
+        for (float ppm : { 9.f, 12.f, 96.f, 4096.f }) for (float factor : { 1.3f, 0.9f }) for (int brk = 0; brk <= 4; ++brk) {
+            gr_font *font = gr_make_font(ppm, face); if (!font) return; const double k = double(ppm) / upem;
+            gr_segment *A = gr_make_seg(nullptr, face, 0, nullptr, gr_utf8, txt.c_str(), n, dir), *B = gr_make_seg(font, face, 0, nullptr, gr_utf8, txt.c_str(), n, dir);
+            if (!A || !B) { if (A) gr_seg_destroy(A); if (B) gr_seg_destroy(B); gr_font_destroy(font); return; }
+            std::vector<const gr_slot*> sa = seg_slots(A), sb = seg_slots(B); bool skip = sa.size() != sb.size() || sa.size() < 2;
+            size_t bk = 0; if (!skip && brk) { size_t seen = 0; for (size_t q = 1; q < sa.size(); ++q) if (break_ok(sa, q) && ++seen == size_t(brk)) { bk = q; break; } if (!bk) skip = true; }
+            const char *why = nullptr; char detail[200] = "";
+            if (!skip) {
+                double endA = gr_seg_advance_X(A); if (bk) { gr_slot_linebreak_before(const_cast<gr_slot*>(sa[bk])); gr_slot_linebreak_before(const_cast<gr_slot*>(sb[bk])); }
+                struct Line { size_t b, e; }; std::vector<Line> lines; if (bk) { lines.push_back({ bk, sa.size() }); lines.push_back({ 0, bk }); } else lines.push_back({ 0, sa.size() });
+                for (const Line &ln : lines) { if (why) break;
+                    double x0 = gr_slot_origin_X(sa[ln.b]), x1 = ln.e < sa.size() ? gr_slot_origin_X(sa[ln.e]) : endA; double nat = std::fabs(x1 - x0); if (!(nat > 1)) continue; double W = double(factor) * nat;
+                    float wa = gr_seg_justify(A, sa[ln.b], nullptr, W, gr_justCompleteLine, nullptr, nullptr), wb = gr_seg_justify(B, sb[ln.b], font, W * k, gr_justCompleteLine, nullptr, nullptr); ctl.counters[0] = ctl.counters[0] + 1;
+                    double tol = (double(ln.e - ln.b) + 2.0) * k + 1e-4 * std::fabs(wb);
+                    if (!(std::fabs(wa) < 1e30) || !(std::fabs(wb) < 1e30)) { why = "justified width not finite"; }
+                    else if (std::fabs(wb - wa * k) > tol) { why = "justified width not the design-unit width scaled"; snprintf(detail, sizeof detail, "got %g want %g (design %g)", wb, wa * k, wa); }
+                    for (size_t q = ln.b; q < ln.e && !why; ++q) { double ax = gr_slot_origin_X(sa[q]), bx = gr_slot_origin_X(sb[q]), ay = gr_slot_origin_Y(sa[q]), by = gr_slot_origin_Y(sb[q]); double t2 = tol + 1e-4 * std::fabs(bx);
+                        if (std::fabs(bx - ax * k) > t2 || std::fabs(by - ay * k) > t2) { why = "justified slot origin not the design-unit origin scaled"; snprintf(detail, sizeof detail, "slot %zu of line [%zu,%zu): got (%g,%g) want (%g,%g)", q, ln.b, ln.e, bx, by, ax * k, ay * k); } }
+                }
+            }
+            gr_seg_destroy(A); gr_seg_destroy(B); gr_font_destroy(font);
+            if (why) { JObj o; o.kv("font", fontname).kv("text_utf8_hex", hex(txt.data(), txt.size())).kv("ppm", double(ppm)).kv("factor", double(factor)).kv("break_index", (unsigned long long)bk).kv("kind", "justify_scaling").kv("why", why).kv("detail", detail); report_fail(i, o); return; }
+        }
+        ctl.cls(hash_str(fontname) * 31 + n);
+    };
+}
 int main(int argc, char **argv) {
     std::vector<Sub> subs;
     { Sub s; s.name = "ppm_product"; s.setup = setup; s.budget_quick = 120; s.budget_thorough = 900; s.counter_names = { "comparisons", "cases_with_attachments", "max_relative_error_e9" }; subs.push_back(s); }
+    { Sub s; s.name = "justified_lines"; s.setup = setup_just; s.budget_quick = 100; s.budget_thorough = 600; s.counter_names = { "justify_pairs" }; subs.push_back(s); }
     return check_main(argc, argv, "C15", subs);
 }
